@@ -80,8 +80,14 @@ def set_item_paths(o):
 
 def op_in_domain(o) -> bool:
     """pure spellings, well-formed mapping values, no dotted keys inside mappings"""
-    def val_ok(v):
-        return tree_wf(v) and not any("." in k for p, _ in leaf_paths(v) for k in p)
+    def nested_device(v, depth=0):
+        # update validates a key named "device" at EVERY nesting level, set only the whole key
+        # string: nested "device" keys are outside the claim (the theorems exclude them: nodev)
+        return isinstance(v, dict) and any((k == "device" and depth > 0) or nested_device(x, depth + 1) for k, x in v.items())
+
+    def val_ok(v, top=False):
+        return tree_wf(v) and not any("." in k for p, _ in leaf_paths(v) for k in p) \
+            and not nested_device(v, 0 if top else 1)
     if o[0] == "raise":
         return True
     if o[0] in ("set", "with", "withx"):
@@ -94,9 +100,9 @@ def op_in_domain(o) -> bool:
             ok = ok and all(op_in_domain(b) for b in o[3])
         return ok
     if o[0] == "upd":
-        return val_ok(o[1])
+        return val_ok(o[1], top=True)
     if o[0] == "refresh":
-        return all(val_ok(y) for y in o[1])
+        return all(val_ok(y, top=True) for y in o[1])
     return False
 
 
